@@ -27,4 +27,18 @@ Definition old_form (old p : list N) : Prop :=
 (* the reference resolves to something *)
 Definition resolves (w : world) (m : N) (r : id) : Prop := exists x, designates w m r x.
 
+(* the part of the operation alphabet for which the move theorems of C06 are NOT proved (covered by the correspondence
+   and the implementation-side oracle only): the moved element is not identifiable (a container: the per-path re-keying
+   loop), or source and destination lie in different models (move_element_full) *)
+Definition pending06 (w : world) (o : op) : bool :=
+  match o with
+  | OpMove h mv | OpMoveAt h mv _ =>
+    negb (identifiable T w mv) ||
+    match model_of h w, model_of mv w with
+    | Val (OK m1, _), Val (OK m2, _) => negb (m1 =? m2)
+    | _, _ => false
+    end
+  | _ => false
+  end.
+
 End Follow.
